@@ -18,6 +18,7 @@ func init() {
 			c.run("C16-R3", "SIBLING: marker cut", c16R3)
 			c.run("C16-R4", "GUARD-DOM: continuation only with junk tolerance; stripper slices only at proven indexes", c16R4)
 			c.run("C16-R5", "WHO-CALLS: junk tolerance forced by tunnel / config", c16R5)
+			c.run("C16-R6", "PAIR: the Windows reader's duplicate flag is consumed by the first kept letter", c16R6)
 		})
 }
 
@@ -451,4 +452,52 @@ func c16R5(c *Ctx) {
 		c.check(noTun, "recvLine/windows-reader@in-band", c.ipos(ci), "the Windows-console reader is used only in-band", "the Windows-console reader is used on a tunnel")
 	}
 	_ = strings.TrimSpace
+}
+
+// c16R6: the Windows reader's "a cursor move may re-print the last character" flag is consumed by the
+// first kept letter: on every path through the letter branch the flag is false afterwards.
+func c16R6(c *Ctx) {
+	f := c.fn("trzszBuffer.readLineOnWindows")
+	var letter *ssa.BasicBlock
+	for _, ci := range callsIn(f, idIs("trzsz.isTrzszLetter")) {
+		for _, r := range referrersOf(ci.Value()) {
+			if i, ok := r.(*ssa.If); ok {
+				letter = i.Block().Succs[0]
+			}
+		}
+	}
+	if letter == nil {
+		c.lost("letter branch in readLineOnWindows")
+	}
+	n := 0
+	eachInstr(f, func(in ssa.Instruction) {
+		p, ok := in.(*ssa.Phi)
+		if !ok || p.Comment != "mayDuplicate" {
+			return
+		}
+		for k, e := range p.Edges {
+			pred := p.Block().Preds[k]
+			if !(letter == pred || letter.Dominates(pred)) {
+				continue
+			}
+			n++
+			good := false
+			if b, isC := constBool(e); isC && !b {
+				good = true
+			}
+			for _, fc := range append(factsAt(pred), edgeFactsTo(pred, p.Block())...) {
+				if !fc.Pol && fc.V == e {
+					good = true
+				}
+			}
+			if q, ok := e.(*ssa.Phi); ok && q.Comment == "mayDuplicate" && (letter == q.Block() || letter.Dominates(q.Block())) {
+				good = true // a merge inside the letter branch, checked on its own edges
+			}
+			c.check(good, "readLineOnWindows/duplicate-flag-consumed", c.pos(pred.Instrs[len(pred.Instrs)-1].Pos()), "after a kept letter the 're-printed character' flag is false",
+				"the 're-printed character' flag can stay armed after a letter was kept: a later ordinary character equal to its predecessor is dropped")
+		}
+	})
+	if n < 3 {
+		c.undecided("readLineOnWindows/duplicate-flag", "the flag's merges in the letter branch were not found")
+	}
 }
